@@ -826,9 +826,9 @@ func opHandlerBind(env *LEnv, args *LVal) *LVal {
 				// even if a Go panic propagates through the handler.
 				env.Runtime.PushCondition(val)
 				defer env.Runtime.PopCondition()
-				expr := []*LVal{hval, Quote(Symbol(val.Str))}
-				expr = append(expr, val.Copy().Cells...)
-				return env.Eval(SExpr(expr))
+				hargs := []*LVal{Quote(Symbol(val.Str))}
+				hargs = append(hargs, val.Copy().Cells...)
+				return env.applyToValues(hval, hargs...)
 			}
 			return val
 		}
